@@ -824,6 +824,14 @@ func (p *parser) parseStatement1() (*a.Node, error) {
 			return nil, fmt.Errorf(`parse: no matching while/iterate statement for %s%s%s at %s:%d`,
 				x.Str(p.tm), sepStr, labelStr, p.filename, p.line())
 		}
+		if loop.Keyword() == t.IDIterate {
+			// The generated code advances an iterate loop's slices at the end
+			// of each (unrolled) copy of the body, and runs the rounds one
+			// after another. A break or continue would skip the advance or
+			// leave just the current round.
+			return nil, fmt.Errorf(`parse: %s cannot jump to an iterate statement at %s:%d`,
+				x.Str(p.tm), p.filename, p.line())
+		}
 
 		deep := loop != p.loops.Top()
 		if x == t.IDBreak {
